@@ -328,6 +328,19 @@ theorem C10_facts_peer :
     Facts.missing = [] := by
   decide
 
+/-- The offered session identifier is OPAQUE to the server (both stacks): of all functions of
+handshake_server.go only `checkForResumption` (emptiness test and cache key, see the guards in
+`C10_facts`) and `doResumeHandshake` (echo into the ServerHello) read `clientHello.sessionId`. No
+other step of the server handshake — processClientHello in particular — looks at it, so an
+identifier of any legal length 1..32 that the server does not hold is just a cache miss: this is
+why the model's identifiers are naturals without a length and one `Pre.forge` stands for the
+forged / foreign identifiers of every length (the driver offers every length on both stacks). -/
+theorem C10_facts_opaque_id :
+    Facts.tlcp.resOfferedIdReaders = ["serverHandshakeState.checkForResumption", "serverHandshakeState.doResumeHandshake"] ∧
+    Facts.dtlcp.resOfferedIdReaders = Facts.tlcp.resOfferedIdReaders ∧
+    Facts.missing = [] := by
+  decide
+
 /-- both stacks run the repaired client -/
 theorem C10_repaired : Repaired Oracle.C10.tlcpParams ∧ Repaired Oracle.C10.dtlcpParams :=
   ⟨⟨C10_facts.1, C10_facts.2.2.1⟩, ⟨C10_facts.2.1, C10_facts.2.2.2.1⟩⟩
